@@ -218,11 +218,8 @@ def judge(ck, pds, devmap, c, stats):
         changed.append("Go")
     if changed:
         stats["parent_changed"] += 1
-        dev = devmap.get(id(c)) if devmap else None
         if ctx == "pipelast" and s["P1"] == expC:
             key = "Dev_LastPipe"
-        elif dev is not None and s["P1"] == render_view(dev):
-            key = "Dev_AppendInPlace"
         else:
             key = "parent changed (%s) %s" % ("+".join(changed), ident)
         ck.violation(key, dict(rec, spec_parent=expP, impl_before=s["P0"], impl_after=s["P1"],
@@ -248,39 +245,6 @@ def judge(ck, pds, devmap, c, stats):
     if v["changed"]:
         stats["nontrivial"] += 1
         ck.sample({"ctx": ctx, "parent": short(v["pd"]), "muts": v["muts"], "child_dump": s["C"][:160], "parent_dump": s["P1"][:160]}, cap=4)
-
-
-def parent_changed(c):
-    r = c.impl
-    if r.get("panic") or r.get("timeout") or r.get("run_error") or r.get("harness_error"):
-        return False
-    s = sections(r["out"])
-    return bool(r.get("go_changed")) or s.get("P0") != s.get("P1") or s.get("R0") != s.get("R1") or s.get("G0") != s.get("G1")
-
-
-def dev_predictions(ck, cases):
-    """Aim the deviation model (Buggy = TRUE) at exactly the behaviours on which the interpreter changed
-    its parent: TLC replays them (Replay = TRUE) and emits the parent view Dev_AppendInPlace predicts.
-    Returns {id(case): predicted parent view}.  Nothing is run when no case failed."""
-    bad = [c for c in cases if c.ctx != "pipelast" and parent_changed(c)]
-    if not bad:
-        return {}
-    import os
-    work = vlib.scratch("c27dev-")
-    try:
-        path = os.path.join(work, "listed.ndjson")
-        with open(path, "w") as f:
-            for i, c in enumerate(bad):
-                kind = "share" if c.ctx in ("sub", "cmdsub", "pipelast") else "copy"
-                f.write(json.dumps({"id": i, "pd": c.vec["pd"], "kind": kind, "muts": c.vec["muts"]}) + "\n")
-        d = vlib.run_tlc("ShSubshell", "ShSubshell.devreplay.cfg", workers=4, timeout=900, tags=("DEV",),
-                         env_extra={"VERIF_TRACE": path})
-        ck.add_tlc(d)
-        ck.notes["dev_replay"] = {"listed": len(bad), "predicted": len(d.vecs.get("DEV", [])), "wall_s": round(d.wall, 1)}
-        return {id(bad[x["id"]]): x["pview"] for x in d.vecs.get("DEV", [])}
-    finally:
-        import shutil
-        shutil.rmtree(work, ignore_errors=True)
 
 
 def tlc_cfg(ck, name):
@@ -343,7 +307,7 @@ def run(ck):
     ck.rng.shuffle(small)
     ck.rng.shuffle(rest)
     run_bash(small + rest, budget_s=25 if quick else 180)
-    devmap = dev_predictions(ck, cases)
+    devmap = None
     stats = {"bash": 0, "parent_changed": 0, "nontrivial": 0}
     for c in cases:
         judge(ck, pds, devmap, c, stats)
@@ -374,6 +338,6 @@ def replay(ck, rec):
         run_bash([c])
     stats = {"bash": 0, "parent_changed": 0, "nontrivial": 0}
     pds = {pdkey(pd["pd"]): pd}
-    judge(ck, pds, dev_predictions(ck, [c]), c, stats)
+    judge(ck, pds, None, c, stats)
     for d in ck.drifts:
         print("SPEC-DRIFT property=C27 %s: spec=%r impl=%r bash=%r" % (d.get("what"), d.get("spec"), d.get("impl"), d.get("bash")))
